@@ -26,6 +26,10 @@ def load_cls(path):
     return o
 
 
+class ReplayTimeout(BaseException):
+    """the harness's own time limit (never an outcome of the function under test)"""
+
+
 def decode_value(v):
     if isinstance(v, dict):
         if '__bytes__' in v:
@@ -235,8 +239,8 @@ def _check(cdef, fn, kind, owner, inputs, chain):
         out['outcome'] = 'return'
         out['result'] = repr(result)[:500]
     except BaseException as e:
-        if isinstance(e, (KeyboardInterrupt, SystemExit)):
-            raise
+        if isinstance(e, (KeyboardInterrupt, SystemExit)) or type(e).__name__ in ('_TO', 'ReplayTimeout'):
+            raise          # interrupts and the harness's own time limit are not outcomes of the function
         out['outcome'] = 'raise'
         out['exception'] = '%s: %s' % (type(e).__name__, str(e)[:300])
         ok = False
